@@ -21,7 +21,7 @@ deriving Repr, DecidableEq
 /-- `allocate_session`: the slab's vacant key, refused if above the agreed channel-max -/
 def allocate (s : Slab) (bound : Nat) : Slab × AllocRes :=
   let k := s.vacantKey
-  if allocate_session.cond_if_0 k bound then (s, .maxReached)
+  if allocate_session.cond_if_0 (outgoing_channel := k) (self_agreed_channel_max := bound) then (s, .maxReached)
   else ((s.insert "").1, .channel k)
 
 def free (s : Slab) (ch : Nat) : Slab := (s.remove ch).1
